@@ -98,62 +98,86 @@ pub fn run(run: &mut Run, args: &Args) {
         }
     }
 
-    // end-to-end through the public BatchPartitioner (no hook): row i must land in partition
-    // create_hashes(row i) % n.
-    let e2e = run.budget(60, 2_000);
-    for _ in 0..e2e {
+    // end-to-end through the public BatchPartitioner (no hook): ONE partitioner is reused for
+    // 1..4 batches (the hash buffer is recycled between batches), 1..3 key expressions (possibly
+    // the same column twice) over nullable Int64 / Int32 / Utf8 / Utf8View / Boolean columns;
+    // row i of each batch must land in partition create_hashes(keys of row i) % n, where the
+    // expected hash is recomputed independently with the public `create_hashes` on a fresh buffer.
+    let e2e = run.budget(120, 3_000);
+    for case_i in 0..e2e {
         let big = rng.chance(1, 4);
         let n = 1 + rng.below(if big { 300 } else { 17 }) as usize;
-        let rows = 1 + rng.below(64) as usize;
-        let vals: Vec<i64> = (0..rows).map(|_| rng.range(-5, 40)).collect();
-        let ids: Vec<u64> = (0..rows as u64).collect();
         let schema = Arc::new(Schema::new(vec![
-            Field::new("k", DataType::Int64, false),
+            Field::new("k0", DataType::Int64, true),
+            Field::new("k1", DataType::Utf8, true),
+            Field::new("k2", DataType::Int32, true),
+            Field::new("k3", DataType::Utf8View, true),
+            Field::new("k4", DataType::Boolean, true),
             Field::new("id", DataType::UInt64, false),
         ]));
-        let karr: ArrayRef = Arc::new(Int64Array::from(vals.clone()));
-        let batch = RecordBatch::try_new(
-            schema.clone(),
-            vec![karr.clone(), Arc::new(UInt64Array::from(ids))],
-        )
-        .unwrap();
-        let mut hashes = vec![0u64; rows];
-        create_hashes(&[karr], REPARTITION_RANDOM_STATE.random_state(), &mut hashes).unwrap();
-        let mut p = BatchPartitioner::new_hash_partitioner(
-            vec![col("k", &schema).unwrap()],
-            n,
-            metrics::Time::new(),
-        )
-        .unwrap();
-        let mut seen = vec![usize::MAX; rows];
+        let nkeys = 1 + rng.below(3) as usize;
+        let key_cols: Vec<usize> = (0..nkeys).map(|_| rng.below(5) as usize).collect();
+        let exprs = key_cols
+            .iter()
+            .map(|c| col(&format!("k{c}"), &schema).unwrap())
+            .collect::<Vec<_>>();
+        let mut p = BatchPartitioner::new_hash_partitioner(exprs, n, metrics::Time::new()).unwrap();
+        let nbatches = 1 + rng.below(4);
         let mut ok = true;
         let mut detail = String::new();
-        let res = p.partition(batch, |part, b| {
-            let idc = b.column(1).as_any().downcast_ref::<UInt64Array>().unwrap();
-            for i in 0..idc.len() {
-                let id = idc.value(i) as usize;
-                if seen[id] != usize::MAX {
-                    ok = false;
-                    detail = format!("row {id} delivered twice");
+        for bi in 0..nbatches {
+            let rows = *rng.pick(&[1usize, 2, 5, 17, 64]);
+            let nullp = *rng.pick(&[0u64, 1, 3]);
+            let mut isnull = |rng: &mut hutil::Rng| nullp > 0 && rng.below(6) < nullp;
+            let k0: Int64Array = (0..rows).map(|_| if isnull(&mut rng) { None } else { Some(rng.range(-5, 40)) }).collect();
+            let k1: Vec<Option<String>> = (0..rows).map(|_| if isnull(&mut rng) { None } else { Some(format!("s{}", rng.below(9))) }).collect();
+            let k2: arrow::array::Int32Array = (0..rows).map(|_| if isnull(&mut rng) { None } else { Some(rng.range(-2, 7) as i32) }).collect();
+            let k3: Vec<Option<String>> = (0..rows).map(|_| if isnull(&mut rng) { None } else { Some(format!("a-rather-long-view-value-{}", rng.below(5))) }).collect();
+            let k4: arrow::array::BooleanArray = (0..rows).map(|_| if isnull(&mut rng) { None } else { Some(rng.chance(1, 2)) }).collect();
+            let cols: Vec<ArrayRef> = vec![
+                Arc::new(k0),
+                Arc::new(arrow::array::StringArray::from(k1)),
+                Arc::new(k2),
+                Arc::new(arrow::array::StringViewArray::from(k3)),
+                Arc::new(k4),
+                Arc::new(UInt64Array::from((0..rows as u64).collect::<Vec<_>>())),
+            ];
+            let batch = RecordBatch::try_new(schema.clone(), cols.clone()).unwrap();
+            let keys: Vec<ArrayRef> = key_cols.iter().map(|c| cols[*c].clone()).collect();
+            let mut hashes = vec![0u64; rows];
+            create_hashes(&keys, REPARTITION_RANDOM_STATE.random_state(), &mut hashes).unwrap();
+            let mut seen = vec![usize::MAX; rows];
+            let res = p.partition(batch, |part, b| {
+                let idc = b.column(5).as_any().downcast_ref::<UInt64Array>().unwrap();
+                for i in 0..idc.len() {
+                    let id = idc.value(i) as usize;
+                    if seen[id] != usize::MAX {
+                        ok = false;
+                        detail = format!("batch {bi}: row {id} delivered twice");
+                    }
+                    seen[id] = part;
                 }
-                seen[id] = part;
-            }
-            Ok(())
-        });
-        if res.is_err() {
-            ok = false;
-            detail = format!("partition error {:?}", res.err());
-        }
-        for i in 0..rows {
-            let want = (hashes[i] % n as u64) as usize;
-            if seen[i] != want && ok {
+                Ok(())
+            });
+            if res.is_err() {
                 ok = false;
-                detail = format!("row {i} key {} hash {} n {n}: partition {} expected {want}", vals[i], hashes[i], seen[i]);
+                detail = format!("partition error {:?}", res.err());
             }
-            // feed the same (hash, n) to the model as well
-            run.case("bucket", &format!("({} {})", hashes[i], n), &seen[i].to_string(), n != 1);
+            for i in 0..rows {
+                let want = (hashes[i] % n as u64) as usize;
+                if seen[i] != want && ok {
+                    ok = false;
+                    detail = format!(
+                        "batch {bi} (of {nbatches}, same partitioner) row {i}: keys k{key_cols:?} hash {} n {n}: delivered to partition {} expected {want}",
+                        hashes[i], seen[i]
+                    );
+                }
+                // feed the same (hash, n) to the model as well
+                run.case("bucket", &format!("({} {})", hashes[i], n), &seen[i].to_string(), n != 1);
+            }
+            run.count("e2e_batches");
         }
-        run.count("e2e_batches");
-        run.oracle(ok, &format!("e2e n={n} keys={vals:?}"), &detail);
+        run.count(&format!("e2e_keys_{nkeys}"));
+        run.oracle(ok, &format!("e2e case#{case_i} n={n} keycols={key_cols:?} batches={nbatches}"), &detail);
     }
 }
